@@ -91,7 +91,7 @@ func forwarderScenario(ackBad bool, n, f, c int) *explore.Scenario {
 		var items []item
 		var script []*message.Message
 		for i := 0; i < n; i++ {
-			k := vs.Choose(nAlphabet+2, 0, "stream element")
+			k := vs.Choose(nAlphabet+4, 0, "stream element")
 			switch {
 			case k < nAlphabet:
 				dest := []string{"dest-a", "dest b/ü"}[i%2]
@@ -110,6 +110,20 @@ func forwarderScenario(ackBad bool, n, f, c int) *explore.Scenario {
 				items = append(items, item{true, dest, orig})
 			case k == nAlphabet:
 				script = append(script, message.NewMessage(fmt.Sprintf("bad%d", i), []byte("not json")))
+				items = append(items, item{})
+			case k == nAlphabet+2 || k == nAlphabet+3:
+				// a complete envelope followed by something else is not a valid envelope
+				if err := fp.Publish("dest-a", alphabetMsg(1, fmt.Sprintf("glued%d", i))); err != nil {
+					vs.Fail("forwarder-publisher", "%v", err)
+					return
+				}
+				calls := capture.Snapshot()
+				env := calls[len(calls)-1].Msgs[0]
+				tail := []byte(" trailing garbage")
+				if k == nAlphabet+3 {
+					tail = env.Payload // a second envelope glued on
+				}
+				script = append(script, message.NewMessage(fmt.Sprintf("bad%d", i), append(append([]byte{}, env.Payload...), tail...)))
 				items = append(items, item{})
 			default:
 				script = append(script, message.NewMessage(fmt.Sprintf("bad%d", i), []byte(`{"uuid":"x","payload":"eA=="}`)))
